@@ -10,8 +10,12 @@ Three things per case (program, argument values):
           semantics (diffed against CPython) and the model's CFG semantics on the CFG it builds (diffed against (b));
   oracle  CPython running the same source text with instrumented external functions: (return value, call trace).
 
-`real (b) != oracle` is a failing input of the property (ctx.violation); classified by the hoist-safety verdict of
-the Lean model (known defect D9 outside the hoist-safe fragment).  `real != model` -> ctx.broke.
+`real (b) != oracle` is a failing input of the property (ctx.violation, key `input:<source>|<arguments>`), for EVERY
+program: defect D9 (lifted sub-expressions hoisted before side-effecting left siblings; middle operand of a chained
+comparison evaluated twice) was repaired in /repo by commits f9e33c1 and 7c8aeda, so there is no hoist-safe fragment
+and no known-finding routing any more.  The formerly D9-shaped programs are still generated on purpose (~20% of the
+programs, `Gen(d9=True)`): they are the regression inputs of the two repairs.  `real != model` -> ctx.broke; this
+includes a model `err unsupported` (every program of the protocol is inside the model).
 
 Functions useful from a scratch script (after `import bootstrap; bootstrap.install()`):
   gen_program(rng, profile)            -> (source, rn)
@@ -19,7 +23,7 @@ Functions useful from a scratch script (after `import bootstrap; bootstrap.insta
   real_build(source, rn)               -> (status, cfg|None);  canon_cfg(cfg) -> protocol string
   CfgProg(cfg).run(args, budget)       -> Outcome;   PyProg(source).run(args, ticks) -> Outcome
   surface_request(source)              -> S-expression statement list of the protocol
-  hs_source(source)                    -> 'safe' | 'chain' | 'sibling'   (Python copy of the Lean predicate)
+  d9_shapes(source)                    -> subset of {'chain','sibling'}: shape tags only (which repair the program exercises)
   run_real_only(n, seed, profile)      -> summary dict (no Lean at all)
   gen_order_program(rng)               -> typed multi-function source for the order-edge phase (C05)
   order_eval(source)                   -> per track_hugr_side_effects context: recorded links, oracle failures, model request
@@ -45,9 +49,13 @@ RULE = (
     "`while True` + break, external-call conditions, constant conditions), for over range, break/continue, early and "
     "bare returns, statements after return/break/continue (unreachable code), constant conditions, expression "
     "statements, augmented assignments; expressions with external calls (0-2 args), conditional expressions, and/or "
-    "(2-3 operands), not, chained comparisons, walrus, negative literals. ~80% of the programs are hoist-safe, the rest "
-    "are deliberately D9-shaped (lifted sub-expression right of a side-effecting sibling, call in the middle of a chained "
-    "comparison). Each program is run on 3 argument stores (zero, negative and small positive values). Per case: real "
+    "(2-3 operands), not, chained comparisons, walrus, negative literals. ~20% of the programs are deliberately shaped like "
+    "the former defect D9 (repaired by /repo commits f9e33c1, 7c8aeda): a lifted sub-expression (conditional expression, "
+    "and/or, walrus, chained comparison) right of a side-effecting or re-assigned sibling in binary operators, comparisons, "
+    "call arguments and augmented assignments (`g() + (h() if c() else k())`, `x + (x := 5)`, `x += (x := e)`, "
+    "`f(g(), (y := h(x)))`, lifted operands inside both operands), and chained comparisons whose middle operand is a call, "
+    "conditional expression, and/or, walrus, negated or doubly negated literal or is re-assigned by the right operand "
+    "(`f() < g() < h()`, `x < (x := y) < 3`, `x < y < (y := 5)`); the other programs avoid these shapes. Each program is run on 3 argument stores (zero, negative and small positive values). Per case: real "
     "CFGBuilder output interpreted by exec'ing the real block statements vs CPython running the source (value + call "
     "trace); real CFG structure vs Lean `build`; Lean `run` (py / cfg) vs CPython / real-CFG interpretation; structural "
     "facts on the real CFG. non-trivial = the program has a branch, loop or lifted expression and at least one external "
@@ -67,8 +75,10 @@ ASSUMPTIONS = [
 UNMODELLED = [
     "type checking (programs are fed to CFGBuilder directly; the generator is type-directed so that programs are plausible)",
     "tuples, structs, arrays, floats, nested functions, comprehensions, with-blocks, comptime expressions",
-    "chained comparisons with more than 3 operands; a lifted construct or a double negation as the middle operand of a chained "
-    "comparison (model answers `err unsupported`, oracle still runs)",
+    "chained comparisons with more than 3 operands, calls with more than 2 arguments (not generated; every generated program "
+    "is inside the model: a model `err unsupported` is reported as a broken correspondence)",
+    "subscript / attribute assignment targets in the Lean model (the target-operand ordering of visit_Assign/AugAssign is covered by "
+    "oracle-only corpus programs interpreted on the real CFG against CPython, and by typed probes through check() + lowering)",
     "compile_bb / block wiring (row_agreement, return_vars_order of compiler/cfg_compiler.py) and HUGR execution",
     "64-bit wrap-around (values are unbounded ints); the iterator protocol is executed with the semantics of range (C18)",
 ]
@@ -76,10 +86,12 @@ MANIFEST = {
     "level_text": "Lean theorems (all programs of the fragment x all argument stores x all environments of external functions, no "
     "size or iteration bound) over a hand-written model of cfg/builder.py (CFGBuilder statements incl. if/while/the for template/"
     "break/continue/return/unreachable tails, ExprBuilder lifting of IfExp, and/or, chained comparison, walrus into temporaries, "
-    "BranchBuilder, constant conditions with dummy edges, update_reachable, implicit return, pruning): for every HOIST-SAFE program "
-    "the built CFG, executed block by block (successor 1 on a true predicate), halts in the exit block with the same return value, "
+    "build_operands (earlier operands stored in temporaries before a lifted operand is built), BranchBuilder incl. the chained "
+    "comparison that keeps its middle operand in a temporary, constant conditions with dummy edges, update_reachable, implicit "
+    "return, pruning): for EVERY program of the modelled fragment (no hoist-safety hypothesis: defect D9 was repaired in /repo by "
+    "commits f9e33c1 and 7c8aeda and the model follows the repaired builder) the built CFG, executed block by block (successor 1 on a true predicate), halts in the exit block with the same return value, "
     "the same trace of external calls and the same user-variable values as Python's big-step semantics of the source "
-    "(builder_correct_partial, by induction on the big-step derivation; termination-insensitive); every block has at most two "
+    "(by induction on the big-step derivation; termination-insensitive); every block has at most two "
     "successors and two only with a branch predicate; break/continue target the innermost loop; after pruning no real edge leads "
     "from unreachable into reachable code and dummy edges only reach unreachable blocks; the reachable flags are exactly graph "
     "reachability from the entry; block wiring of compiler/cfg_compiler.py (compile_bb / sort_vars / choose_vars_for_tuple_sum / "
@@ -91,16 +103,15 @@ MANIFEST = {
     "typed programs are lowered by the real compiler and compile_bb's actual input/output place order is recovered and compared "
     "with the wiring model and, edge by edge, with the successor's inputs.",
     "level_note": "Trusted: Lean kernel + propext/Classical.choice/Quot.sound; the reading of a CFG (exec of block statements, "
-    "successors[1] on a true predicate); correspondence is sampling. Outside the hoist-safe fragment the property is false of "
-    "the code (D9, known findings).",
+    "successors[1] on a true predicate); correspondence is sampling. D9 (lifted sub-expressions hoisted before left siblings, "
+    "middle operand of a chained comparison evaluated twice) is fixed in /repo (f9e33c1, 7c8aeda); its witnesses are regression "
+    "inputs (corpus/c03/d9_fixed.json) and any real-vs-CPython disagreement is a VIOLATION keyed by the input.",
     "technique": "Lean 4 proof over a hand-written builder model + differential correspondence (structure and semantics) with "
     "cfg/builder.py and CPython",
     "design_ref": "DESIGN.md §5 C03",
     "ready": True,
 }
 
-KEY_CHAIN = "class:chained-compare-middle-twice"
-KEY_SIBLING = "class:lifted-subexpr-hoisted-before-left-sibling"
 PARAMS = ("x", "y", "z")
 FNAME = "main"  # `f` is an external function
 INT_EXT = "fghk"
@@ -527,6 +538,10 @@ def _clean(node, store=False):
         return ast.NamedExpr(_clean(node.target, True), _clean(node.value))
     if isinstance(node, ast.Attribute):
         return ast.Attribute(_clean(node.value), node.attr, ctx)
+    if isinstance(node, ast.Subscript):  # oracle-only corpus programs (subscript assignment targets)
+        return ast.Subscript(_clean(node.value), _clean(node.slice), ctx)
+    if isinstance(node, ast.List):
+        return ast.List([_clean(x, store) for x in node.elts], ctx)
     if isinstance(node, ast.Return):
         v = ast.Constant(None) if node.value is None else _clean(node.value)
         return ast.Assign([ast.Tuple([ast.Name("__ret", ast.Store()), ast.Name("__returned", ast.Store())], ast.Store())],
@@ -592,7 +607,12 @@ class CfgProg:
             return Outcome("err", _err_class(e), trace)
 
 
-# ============================================================================ hoist-safety (Python copy of the Lean predicate)
+# ============================================================================ D9 shape tags (NOT a hypothesis of anything)
+#
+# Until /repo commits f9e33c1 / 7c8aeda the builder miscompiled two classes of expressions (defect D9) and the theorems were
+# restricted to the complement (`hoist-safe`).  The classes are kept here only as SHAPE TAGS: the generator uses them to put
+# the shapes the two repairs handle into ~20% of the programs (and to keep them out of the others, so that the share is
+# controlled), and the evidence reports how many such programs were evaluated.  No verdict depends on them.
 
 
 def _is_chain(e):
@@ -614,6 +634,7 @@ def _kids(e):
 
 
 def _res_calls(e):
+    """a call is left in the residual of `e` after lifting"""
     if _is_lifted(e):
         return False
     if isinstance(e, ast.Call):
@@ -643,38 +664,38 @@ def _has_call(e):
 
 
 def _sib(ops):
+    """operands evaluated left to right: a lifting operand right of an operand whose residual calls / reads what it assigns
+    (the situation in which ExprBuilder.build_operands stores the earlier operand in a temporary)"""
     for j, cj in enumerate(ops):
         if _lifts(cj):
             w = _writes(cj)
             for ci in ops[:j]:
-                # a call left in an earlier operand only matters if the lifting operand makes a call itself
                 if (_res_calls(ci) and _has_call(cj)) or (_res_reads(ci) & w):
                     return {"sibling"}
     return set()
 
 
-def hs_expr(e) -> set:
-    """subset of {'chain','sibling','unsupported'} describing how `e` leaves the hoist-safe fragment"""
+def d9_expr_shapes(e) -> set:
+    """subset of {'chain','sibling'}: which of the two repaired situations occur in `e`"""
     if isinstance(e, (ast.Name, ast.Constant)):
         return set()
     out = set()
     if isinstance(e, ast.NamedExpr):
-        return hs_expr(e.value)
+        return d9_expr_shapes(e.value)
     if _is_chain(e):
         ops = [e.left, *e.comparators]
         for o in ops:
-            out |= hs_expr(o)
+            out |= d9_expr_shapes(o)
         for a, b in zip(ops, ops[1:]):
             out |= _sib([a, b])
         for m in ops[1:-1]:
-            if _has_call(m) or _writes(m):
+            # the middle operand has an effect, is lifted itself, or is folded in place (-(-5)): formerly evaluated/visited twice
+            if _has_call(m) or _lifts(m) or _double_neg_literal(m):
                 out.add("chain")
-            if _lifts(m) or _double_neg_literal(m) or len(ops) > 3:
-                out.add("unsupported")
         return out
     kids = _kids(e)
     for k in kids:
-        out |= hs_expr(k)
+        out |= d9_expr_shapes(k)
     if not isinstance(e, (ast.IfExp, ast.BoolOp)):
         out |= _sib(kids)
     return out
@@ -688,32 +709,24 @@ def _double_neg_literal(m):
     return False
 
 
-def hs_stmt_flags(s) -> set:
+def d9_stmt_shapes(s) -> set:
     out = set()
     for n in ast.walk(s):
         if isinstance(n, ast.AugAssign):
-            out |= hs_expr(n.value) | _sib([n.target, n.value])
+            out |= d9_expr_shapes(n.value) | _sib([n.target, n.value])
         elif isinstance(n, (ast.Assign, ast.Expr)):
-            out |= hs_expr(n.value)
+            out |= d9_expr_shapes(n.value)
         elif isinstance(n, ast.Return) and n.value is not None:
-            out |= hs_expr(n.value)
+            out |= d9_expr_shapes(n.value)
         elif isinstance(n, (ast.If, ast.While)):
-            out |= hs_expr(n.test)
+            out |= d9_expr_shapes(n.test)
         elif isinstance(n, ast.For):
-            out |= hs_expr(n.iter)
+            out |= d9_expr_shapes(n.iter)
     return out
 
 
-def hs_flags_source(source: str) -> set:
-    return hs_stmt_flags(ast.parse(source).body[0])
-
-
-def hs_class(flags: set) -> str:
-    return "chain" if "chain" in flags else "sibling" if "sibling" in flags else "safe"
-
-
-def hs_source(source: str) -> str:
-    return hs_class(hs_flags_source(source))
+def d9_shapes(source: str) -> set:
+    return d9_stmt_shapes(ast.parse(source).body[0])
 
 
 # ============================================================================ features / shape tag
@@ -750,7 +763,7 @@ def features(source: str) -> dict:
                 f.add("const-cond")
     ctrl = next((k for k in ("for", "while", "if") if k in f), None)
     lift = next((k for k in ("chain", "walrus", "ifexp", "boolop") if k in f), None)
-    return {"set": f, "ncalls": ncalls, "shape": [k for k in (ctrl, lift) if k]}
+    return {"set": f, "ncalls": ncalls, "shape": [k for k in (ctrl, lift) if k], "d9": sorted(d9_stmt_shapes(fn))}
 
 
 def shape_tag(feat: dict, unreachable: bool) -> str:
@@ -783,10 +796,12 @@ class Gen:
     COUNTERS = ("n", "m")
     LOOPVARS = ("i", "j")
 
-    def __init__(self, rng, profile="c03", small=False, unsafe=None):
+    def __init__(self, rng, profile="c03", small=False, d9=None):
+        """d9: True = put the shapes repaired by f9e33c1 / 7c8aeda (former defect D9) into the program, False = avoid them,
+        None = True with probability 0.24 (about 20% of the programs end up with such a shape)"""
         self.r = rng
         self.profile = profile
-        self.unsafe = (rng.random() < 0.2) if unsafe is None else unsafe
+        self.d9 = (rng.random() < 0.24) if d9 is None else d9
         self.rn = 1 if rng.random() < (0.3 if profile == "c03" else 0.2) else 0
         self.ret_bool = rng.random() < 0.35
         if profile == "c05":
@@ -857,14 +872,40 @@ class Gen:
         return self.r.choice([ast.Lt, ast.LtE, ast.Gt, ast.GtE, ast.Eq, ast.NotEq])()
 
     def chain_middle(self, d, env):
+        """middle operand of a chained comparison.  d9 programs: anything visit_Compare has to keep in a temporary (call,
+        conditional expression, and/or, walrus, arithmetic with a call) or that is folded while it is built (-5, -(-5))"""
         r = self.r.random()
-        if self.unsafe and r < 0.45:
-            return self.int_call(min(d, 1), env)
-        if r < 0.02:  # outside the model (lifted middle operand): keep rare
-            return ast.IfExp(self.bool_expr(0, env), self.int_atom(env), self.int_atom(env))
-        if r < 0.75:
+        if self.d9 and r < 0.6:
+            return self.lifted_middle(min(d, 1), env)
+        if r < 0.7:
             return self.int_atom(env)
+        if r < 0.75:
+            return ast.UnaryOp(ast.USub(), _const(self.r.randint(1, 5)))
         return ast.BinOp(self.int_atom(env), self.r.choice([ast.Add, ast.Sub])(), self.int_atom(env))
+
+    def lifted_middle(self, d, env):
+        r = self.r
+        g = lambda: self.int_call(d, env)  # noqa: E731
+        ts = self.walrus_targets(env, False)
+        k = self.pick([("call", 4), ("ifexp", 1.5), ("ifexp-call", 1), ("boolop", 0.8), ("walrus", 1.2 if ts else 0),
+                       ("walrus-call", 1 if ts else 0), ("negneg", 0.6), ("arith-call", 1.2), ("neg-call", 0.4)])
+        if k == "call":
+            return g()
+        if k == "ifexp":
+            return ast.IfExp(self.bool_expr(0, env), self.int_atom(env), self.int_atom(env))
+        if k == "ifexp-call":
+            return ast.IfExp(self.bool_call(1, env), g(), self.int_atom(env))
+        if k == "boolop":  # a bool between two ints: Python compares it as 0/1
+            return ast.BoolOp(r.choice([ast.And, ast.Or])(), [self.bool_expr(0, env), self.bool_expr(0, env)])
+        if k == "walrus":
+            return ast.NamedExpr(_name(r.choice(ts), True), self.int_atom(env))
+        if k == "walrus-call":
+            return ast.NamedExpr(_name(r.choice(ts), True), g())
+        if k == "negneg":
+            return ast.UnaryOp(ast.USub(), ast.UnaryOp(ast.USub(), _const(r.randint(1, 5))))
+        if k == "arith-call":
+            return ast.BinOp(g(), r.choice([ast.Add, ast.Sub])(), self.int_atom(env))
+        return ast.UnaryOp(ast.USub(), g())
 
     def bool_expr(self, d, env):
         bvs = [v for v in self.BOOL_LOCALS if v in env]
@@ -898,42 +939,83 @@ class Gen:
             return ast.NamedExpr(_name(self.r.choice(bvs), True), self.bool_expr(d - 1, env))
         return ast.UnaryOp(ast.Not(), _name(self.r.choice(self.int_vars(env))))
 
-    def d9_expr(self, env, boolean):
-        """deliberately hoist-unsafe shapes (defect D9)"""
+    def d9_lifted(self, env, v):
+        """an int operand that emits statements / blocks when it is built"""
         r = self.r
-        v = r.choice([p for p in PARAMS])
         g = lambda: self.int_call(1, env)  # noqa: E731
-        lifted = r.choice([
+        return r.choice([
             lambda: ast.IfExp(self.bool_call(1, env), g(), g()),
             lambda: ast.NamedExpr(_name(v, True), g()),
             lambda: ast.NamedExpr(_name(v, True), _const(r.randint(0, 5))),
+            lambda: ast.NamedExpr(_name(v, True), ast.BinOp(_name(v), ast.Add(), g())),
             lambda: ast.IfExp(ast.BoolOp(r.choice([ast.And, ast.Or])(), [self.bool_call(1, env), self.bool_call(1, env)]),
                               self.int_atom(env), self.int_atom(env)),
+            lambda: ast.IfExp(ast.Compare(self.int_atom(env), [self.cmp_op(), self.cmp_op()], [g(), self.int_atom(env)]),
+                              g(), self.int_atom(env)),
         ])()
-        left = g() if r.random() < 0.6 else _name(v)
+
+    def d9_chain(self, env, v):
+        """chained comparisons the repaired visit_Compare handles"""
+        r = self.r
+        g = lambda: self.int_call(1, env)  # noqa: E731
+        w = r.choice([p for p in PARAMS if p != v])
+        k = self.pick([("mid", 5), ("all-calls", 2), ("mid-assigned-later", 1.5), ("mid-walrus-of-left", 1.5), ("left-call", 1.5),
+                       ("right-lifted", 1)])
+        ops = [self.cmp_op(), self.cmp_op()]
+        if k == "mid":  # a < MID < b with every kind of middle operand
+            return ast.Compare(self.int_atom(env), ops, [self.lifted_middle(1, env), self.int_atom(env)])
+        if k == "all-calls":  # f() < g() < h(): f, g, h
+            return ast.Compare(g(), ops, [g(), g()])
+        if k == "mid-assigned-later":  # x < y < (y := 5): the second comparison uses the old y
+            return ast.Compare(self.int_atom(env), ops, [_name(v), ast.NamedExpr(_name(v, True), self.int_expr(1, env))])
+        if k == "mid-walrus-of-left":  # x < (x := y) < 3: the first comparison uses the old x
+            return ast.Compare(_name(v), ops, [ast.NamedExpr(_name(v, True), r.choice([_name(w), g()])), self.int_atom(env)])
+        if k == "left-call":  # g() < (h() if c() else k()) < b: left operand stored before the middle is built
+            return ast.Compare(g(), ops, [self.lifted_middle(1, env), self.int_atom(env)])
+        return ast.Compare(self.int_atom(env), ops, [g(), self.d9_lifted(env, v)])
+
+    def d9_expr(self, env, boolean):
+        """shapes of the former defect D9 (regression inputs of /repo commits f9e33c1 and 7c8aeda)"""
+        r = self.r
+        v = r.choice([p for p in PARAMS])
+        g = lambda: self.int_call(1, env)  # noqa: E731
+        lifted = self.d9_lifted(env, v)
+        q = r.random()
+        if q < 0.55:
+            left = g()
+        elif q < 0.8:
+            left = _name(v)
+        elif q < 0.9:  # a lifted operand inside the left operand as well
+            left = ast.BinOp(g(), r.choice([ast.Add, ast.Sub])(), self.d9_lifted(env, r.choice(PARAMS)))
+        else:
+            left = ast.BinOp(_name(v), ast.Add(), g())
         if boolean:
             k = r.random()
-            if k < 0.5:
-                return ast.Compare(self.int_atom(env), [self.cmp_op(), self.cmp_op()], [g(), self.int_atom(env)])
-            if k < 0.75:
+            if k < 0.55:
+                return self.d9_chain(env, v)
+            if k < 0.8:
                 return ast.Compare(left, [self.cmp_op()], [lifted])
             return _call(r.choice(BOOL_EXT), [left, lifted])
-        if r.random() < 0.75:
+        k = r.random()
+        if k < 0.6:
             return ast.BinOp(left, r.choice([ast.Add, ast.Sub])(), lifted)
-        return _call(r.choice(INT_EXT), [left, lifted])
+        if k < 0.85:
+            return _call(r.choice(INT_EXT), [left, lifted])
+        if k < 0.93:  # three operands: the first two are stored when the third lifts
+            return ast.BinOp(ast.BinOp(left, ast.Add(), g()), r.choice([ast.Add, ast.Sub])(), lifted)
+        return ast.BinOp(_const(r.randint(1, 3)), ast.Mult(), ast.BinOp(left, ast.Sub(), lifted))
 
     def expr(self, env, boolean, d=None, pre=()):
-        """expression of the wanted type; hoist-safe unless the program is marked unsafe.
+        """expression of the wanted type; free of the D9 shapes unless the program is a d9 program.
         `pre`: implicit left siblings (the target of an augmented assignment)"""
         d = self.ed if d is None else d
-        if self.unsafe and self.r.random() < 0.3:
+        if self.d9 and self.r.random() < 0.4:
             return self.d9_expr(env, boolean)
         for _ in range(8):
             e = self.bool_expr(d, env) if boolean else self.int_expr(d, env)
-            if self.unsafe:
+            if self.d9:
                 return e
-            fl = hs_expr(e) | (_sib([*pre, e]) if pre else set())
-            if fl & {"chain", "sibling"}:
+            if d9_expr_shapes(e) | (_sib([*pre, e]) if pre else set()):
                 continue
             if self.profile == "c05" and _ < 3 and not _has_call(e):
                 continue  # C05: prefer expressions that perform calls
@@ -968,12 +1050,16 @@ class Gen:
             t = r.choice([v for v in (*PARAMS, *self.INT_LOCALS) if v in env])
             if r.random() < 0.15:
                 return ast.AugAssign(_name(t, True), ast.Mult(), _const(r.randint(0, 3)))
+            if self.d9 and r.random() < 0.3:  # x += (x := e) / x -= g() + (x := e): Python reads the old x first
+                w = ast.NamedExpr(_name(t, True), self.int_expr(1, env))
+                rhs = w if r.random() < 0.6 else ast.BinOp(self.int_call(1, env), r.choice([ast.Add, ast.Sub])(), w)
+                return ast.AugAssign(_name(t, True), r.choice([ast.Add, ast.Sub])(), rhs)
             return ast.AugAssign(_name(t, True), r.choice([ast.Add, ast.Sub])(), self.expr(env, False, pre=[_name(t)]))
         if k == "expr":
             q = r.random()
             if q < 0.5:
                 e = self.int_call(self.ed, env) if r.random() < 0.5 else self.bool_call(self.ed, env)
-                if not self.unsafe and (hs_expr(e) & {"chain", "sibling"}):
+                if not self.d9 and d9_expr_shapes(e):
                     e = _call(r.choice(INT_EXT), [self.int_atom(env)])
                 return ast.Expr(e)
             return ast.Expr(self.expr(env, q < 0.8))  # incl. bare IfExp / BoolOp statements
@@ -1130,10 +1216,10 @@ class Gen:
         return ast.unparse(ast.fix_missing_locations(ast.Module([fn], []))) + "\n", self.rn
 
 
-def gen_program(rng, profile="c03", small=False, unsafe=None):
+def gen_program(rng, profile="c03", small=False, d9=None):
     """-> (source, rn). The source text is canonical (ast.unparse) and is the identity of the program."""
     for _ in range(20):
-        src, rn = Gen(rng, profile, small, unsafe).program()
+        src, rn = Gen(rng, profile, small, d9).program()
         try:
             surface_request(src)
         except OutsideProtocol:
@@ -1157,17 +1243,18 @@ def gen_inputs(rng, k=3):
 # ============================================================================ real + oracle for one program
 
 
-def eval_real(source: str, rn: int, inputs, profile=Profile) -> dict:
-    """Everything that does not need the Lean driver."""
+def eval_real(source: str, rn: int, inputs, profile=Profile, model=True) -> dict:
+    """Everything that does not need the Lean driver.  model=False: a program the line protocol cannot express (oracle-only
+    corpus entries, e.g. subscript assignment targets): real CFG vs CPython only."""
     res = {"source": source, "rn": rn, "inputs": [list(i) for i in inputs], "runs": [], "facts": [], "canon": None,
            "request": None, "unreachable": False, "harness_error": None}
     res["feat"] = features(source)
-    res["pyflags"] = sorted(hs_flags_source(source))
-    res["pyhs"] = hs_class(set(res["pyflags"]))
-    try:
-        res["request"] = surface_request(source)
-    except OutsideProtocol as e:
-        res["harness_error"] = f"source outside protocol: {e}"
+    res["d9"] = res["feat"]["d9"]
+    if model:
+        try:
+            res["request"] = surface_request(source)
+        except OutsideProtocol as e:
+            res["harness_error"] = f"source outside protocol: {e}"
     status, cfg = real_build(source, rn)
     res["status"] = status
     if cfg is None:
@@ -1178,7 +1265,7 @@ def eval_real(source: str, rn: int, inputs, profile=Profile) -> dict:
     except Exception as e:  # noqa: BLE001
         res["facts"] = ["struct-check-crashed:" + type(e).__name__]
     try:
-        res["canon"] = canon_cfg(cfg)
+        res["canon"] = canon_cfg(cfg) if model else None
     except OutsideProtocol as e:
         res["canon"] = "uncanonical: " + str(e)
     py = PyProg(source)
@@ -1207,7 +1294,7 @@ def eval_real(source: str, rn: int, inputs, profile=Profile) -> dict:
 
 
 def _replay(res, run=None, **extra):
-    d = {"source": res["source"], "rn": res["rn"], "inputs": res["inputs"], "python_hs": res["pyhs"],
+    d = {"source": res["source"], "rn": res["rn"], "inputs": res["inputs"], "d9_shape": res["d9"],
          "real_status": res["status"], "real_cfg": res["canon"]}
     if run is not None:
         d.update(args=run["args"], cpython=run["py"].show(), real_cfg_run=run["cfg"].show() if run["cfg"] else None)
@@ -1215,8 +1302,8 @@ def _replay(res, run=None, **extra):
     return d
 
 
-def report_oracle(ctx, res, hs, profile=Profile):
-    """struct facts + real-CFG-vs-CPython disagreements, classified by the hoist-safety verdict `hs`"""
+def report_oracle(ctx, res, profile=Profile):
+    """struct facts + real-CFG-vs-CPython disagreements: every one is a failing input of the property, keyed by the input"""
     src = res["source"]
     for fact in res["facts"]:
         ctx.violation(f"struct:{fact}:{src}", f"structural fact `{fact}` fails on the CFG the real builder produces for\n{src}",
@@ -1228,12 +1315,7 @@ def report_oracle(ctx, res, hs, profile=Profile):
             inp = ",".join(f"{k}={v}" for k, v in run["args"].items())
             what = (f"real CFG ({profile.what}) differs from CPython on {inp}: real={run['cfg'].show()[:300]} "
                     f"python={run['py'].show()[:300]} source:\n{src}")
-            if hs == "chain":
-                ctx.violation(KEY_CHAIN, what, _replay(res, run, hs=hs))
-            elif hs == "sibling":
-                ctx.violation(KEY_SIBLING, what, _replay(res, run, hs=hs))
-            else:
-                ctx.violation("input:" + src + "|" + inp, what, _replay(res, run, hs=hs))
+            ctx.violation("input:" + src + "|" + inp, what, _replay(res, run))
     return n
 
 
@@ -1251,7 +1333,7 @@ def _split_run_reply(s: str):
 
 def _cmp_run(model_out: str, o: Outcome):
     """None = skipped, True/False = compared"""
-    if model_out in ("nofuel", "err unsupported") or o is None or o.kind == "nofuel":
+    if model_out == "nofuel" or o is None or o.kind == "nofuel":
         return None
     if o.kind == "err" and o.value == "unbound":
         return None  # the model's store defaults unbound variables
@@ -1265,7 +1347,8 @@ def run_args_sx(args: dict) -> str:
 
 
 def model_phase(ctx, results, profile=Profile):
-    """send build/run requests for all evaluated programs; diff; classify oracle disagreements with the model's HS"""
+    """send build/run requests for all evaluated programs; diff.  The `ok` reply still carries a fragment token (`safe` for
+    every program since the model follows the repaired builder); any other token or an `err unsupported` is a broken tie"""
     lines, slots = [], []
     for i, res in enumerate(results):
         if res["request"] is None:
@@ -1279,9 +1362,7 @@ def model_phase(ctx, results, profile=Profile):
                     lines.append(f"(run {res['rn']} {res['request']} {run_args_sx(run['args'])} {fuel})")
                     slots.append((i, "run", j))
     replies = ctx.driver(DRIVER, lines) if lines else []
-    hs_of = {}
-    st = {"build_cmp": 0, "outside_model": 0, "run_py_cmp": 0, "run_cfg_cmp": 0, "run_skipped": 0, "hs_disagree": 0,
-          "hs": {"safe": 0, "chain": 0, "sibling": 0}}
+    st = {"build_cmp": 0, "outside_model": 0, "run_py_cmp": 0, "run_cfg_cmp": 0, "run_skipped": 0, "fragment_token": {}}
     for (i, kind, j), line, rep in zip(slots, lines, replies):
         res = results[i]
         src = res["source"]
@@ -1293,20 +1374,20 @@ def model_phase(ctx, results, profile=Profile):
             if rep == "err unsupported":
                 st["outside_model"] += 1
                 ctx.bump("outside-model")
-                if "unsupported" not in res["pyflags"]:
-                    ctx.broke(f"correspondence Model/Builder.lean vs harness: model answers `err unsupported` for a program the "
-                              f"Python predicate considers inside the model:\n{src}")
+                ctx.broke(f"correspondence Model/Builder.lean vs cfg/builder.py: model answers `err unsupported` for a program of "
+                          f"the protocol (calls with <= 2 arguments, chains of 3 operands); real={res['status']} source:\n{src}")
                 continue
             st["build_cmp"] += 1
             if rep.startswith("ok "):
                 parts = rep.split(" ", 2)
-                hs, body = parts[1], norm_sx(renumber(parts[2])) if len(parts) > 2 else ""
-                if hs in st["hs"]:
-                    hs_of[i] = hs
-                    st["hs"][hs] += 1
-                    if hs != res["pyhs"]:
-                        st["hs_disagree"] += 1
-                        ctx.broke(f"hoist-safety: Lean says {hs}, Python predicate says {res['pyhs']} for\n{src}")
+                if parts[1].startswith("("):  # no fragment token
+                    tok, body = None, norm_sx(renumber(rep[3:]))
+                else:
+                    tok, body = parts[1], norm_sx(renumber(parts[2])) if len(parts) > 2 else ""
+                    st["fragment_token"][tok] = st["fragment_token"].get(tok, 0) + 1
+                    if tok != "safe":
+                        ctx.broke(f"Model/Builder.lean restricts its correctness claim: driver reports fragment `{tok}` (expected "
+                                  f"`safe` for every program since f9e33c1/7c8aeda) for\n{src}")
                 real = ("ok", res["canon"]) if res["status"] == "ok" else (res["status"], None)
                 if real != ("ok", body):
                     ctx.broke("correspondence Model/Builder.lean vs cfg/builder.py: " + _first_diff(real, body) + f" source:\n{src}")
@@ -1321,6 +1402,11 @@ def model_phase(ctx, results, profile=Profile):
                 ctx.broke(f"harness/driver protocol: cannot parse run reply `{rep[:200]}` for `{line[:200]}`")
                 continue
             inp = ",".join(f"{k}={v}" for k, v in run["args"].items())
+            if "err unsupported" in (sp[0], sp[1]):
+                st["outside_model"] += 1
+                ctx.broke(f"correspondence Model/Builder.lean vs cfg/builder.py: model `run` answers `err unsupported` "
+                          f"(py={sp[0][:80]} cfg={sp[1][:80]}) for a program of the protocol:\n{src}")
+                continue
             a = _cmp_run(sp[0], run["py"])
             b = _cmp_run(sp[1], run["cfg"])
             if a is None:
@@ -1337,7 +1423,7 @@ def model_phase(ctx, results, profile=Profile):
                 if not b:
                     ctx.broke(f"correspondence Model/Builder.lean CFG semantics vs interpretation of the real CFG on {inp}: "
                               f"model={sp[1][:300]} real={run['cfg'].show()[:300]} source:\n{src}")
-    return hs_of, st
+    return st
 
 
 def _first_diff(real, model_body: str) -> str:
@@ -1367,7 +1453,9 @@ def load_corpus(profile):
                 for c in json.load(open(os.path.join(d, fn))):
                     if "rn" not in c:  # wiring.json / target_exprs.json / call_counts.json: typed programs of the T-obj phases
                         continue
-                    out.append(("corpus:" + fn, c["source"], int(c["rn"]), c["inputs"]))
+                    # "oracle_only": a program outside the line protocol (real CFG vs CPython only, no model request)
+                    tag = "corpus-oracle-only:" if c.get("oracle_only") else "corpus:"
+                    out.append((tag + fn, c["source"], int(c["rn"]), c["inputs"]))
     return out
 
 
@@ -1383,10 +1471,11 @@ def tie(ctx, profile=Profile):
 
     t0 = time.time()
     results = []
-    disagree = {"safe": 0, "chain": 0, "sibling": 0}
+    disagree = {"plain": 0, "chain": 0, "sibling": 0}
+    shaped = {"plain": 0, "chain": 0, "sibling": 0}
     statuses: dict[str, int] = {}
     for name, src, rn, inputs in cases:
-        res = eval_real(src, rn, inputs, profile)
+        res = eval_real(src, rn, inputs, profile, model=not name.startswith("corpus-oracle-only:"))
         res["name"] = name
         results.append(res)
         statuses[res["status"]] = statuses.get(res["status"], 0) + 1
@@ -1403,18 +1492,20 @@ def tie(ctx, profile=Profile):
             ctx.count({"source": src, "rn": rn, "args": None}, False, kind)
     ctx.extra["real_side_s"] = round(time.time() - t0, 2)
 
-    hs_of, st = model_phase(ctx, results, profile)
+    st = model_phase(ctx, results, profile)
 
-    for i, res in enumerate(results):
-        hs = hs_of.get(i, res["pyhs"])  # authority: the Lean verdict; Python predicate when the model abstains
-        n = report_oracle(ctx, res, hs, profile)
-        if n:
-            disagree[hs] += 1
+    for res in results:
+        tags = res["d9"] or ["plain"]  # shape tags (former D9 classes); reporting only, every disagreement is a violation
+        for t in tags:
+            shaped[t] += 1
+        if report_oracle(ctx, res, profile):
+            for t in tags:
+                disagree[t] += 1
     ctx.extra["programs"] = len(results)
     ctx.extra["real_build_status"] = statuses
-    ctx.extra["oracle_disagreeing_programs_by_hs"] = disagree
+    ctx.extra["programs_by_d9_shape"] = shaped
+    ctx.extra["oracle_disagreeing_programs_by_d9_shape"] = disagree
     ctx.extra["model_comparisons"] = st
-    ctx.extra["python_vs_lean_hs_disagreements"] = st["hs_disagree"]
     ctx.extra["outside_model_fraction"] = round(st["outside_model"] / max(1, len(results)), 4)
     ctx.extra["cpython_timeouts"] = sum(1 for r in results for run in r["runs"] if run["py"].kind == "nofuel")
     if profile.pid == "C03":
@@ -2109,9 +2200,10 @@ def load_probe_corpus(prop: str, fname: str):
 
 
 def tie_probes(ctx):
-    """C03: typed programs with control-flow expressions inside assignment targets must be accepted and lower"""
+    """C03: typed programs that must be accepted and lower: control-flow expressions inside assignment targets (9df9073);
+    programs whose operands the repaired builder stores in temporaries (f9e33c1, 7c8aeda: d9_fixed_typed.json)"""
     n = 0
-    for c in load_probe_corpus("c03", "target_exprs.json"):
+    for c in load_probe_corpus("c03", "target_exprs.json") + load_probe_corpus("c03", "d9_fixed_typed.json"):
         r = probe_eval(c["source"])
         ok = r["check"] == "ok" and r["lowered"]
         n += 1
@@ -2124,21 +2216,19 @@ def tie_probes(ctx):
 
 
 def tie_call_probes(ctx):
-    """C05: number of Call nodes of the side-effecting helper in the lowered Hugr == number of calls Python evaluates"""
+    """C05: number of Call nodes of the side-effecting helper in the lowered Hugr == number of call expressions in the source
+    (every call expression is lowered exactly once; `a < idx() < b` has ONE since 7c8aeda)"""
     n = 0
     for c in load_probe_corpus("c05", "call_counts.json"):
         r = probe_eval(c["source"], c.get("helper", "idx"))
         n += 1
         good = r["check"] == "ok" and r["lowered"] and r["calls"] == c["calls"]
-        known = c.get("known") or {}
-        is_known = bool(known) and r["check"] == "ok" and r["lowered"] and r["calls"] == known.get("count")
-        ctx.count({"probe": c["name"], "source": c["source"]}, True,
-                  "probe:" + ("calls-as-python" if good else "known-d9" if is_known else "failed"))
+        ctx.count({"probe": c["name"], "source": c["source"]}, True, "probe:" + ("calls-as-python" if good else "failed"))
         if good:
             continue
         what = (f"typed probe `{c['name']}`: the lowered Hugr has {r['calls']} Call nodes of `{c.get('helper', 'idx')}`, Python "
                 f"evaluates {c['calls']} (check={r['check']} error={r['error']}); source:\n{c['source']}")
-        ctx.violation(known["key"] if is_known else "probe:" + c["name"], what,
+        ctx.violation("probe:" + c["name"], what,
                       {"probe": c["name"], "probe_source": c["source"], "result": r, "expected_calls": c["calls"]})
     ctx.extra["call_count_probes"] = n
 
@@ -2703,10 +2793,8 @@ def tie_order(ctx, n=None, use_model=True):
 
 
 def _fails(src, rn, inputs, profile):
-    """hoist-safe (Python predicate) program on which the real CFG disagrees with CPython -> failing run or None"""
+    """program on which the real CFG disagrees with CPython (or violates a structural fact) -> failing run or None"""
     try:
-        if hs_source(src) != "safe":
-            return None
         res = eval_real(src, rn, inputs, profile)
     except Exception:  # noqa: BLE001
         return None
@@ -2815,12 +2903,13 @@ def shrink(src, rn, inputs, profile=Profile, rounds=400):
 
 
 def search(ctx, why, profile=Profile):
-    """something broke: look for a hoist-safe program on which the REAL builder disagrees with CPython"""
+    """something broke: look for a program on which the REAL builder disagrees with CPython (half of the candidates carry
+    the shapes repaired by f9e33c1 / 7c8aeda)"""
     rng = ctx.rng
     found = 0
     tried = 0
     for k in range(ctx.n(4000, 40000)):
-        src, rn = gen_program(rng, profile.gen, small=(k % 4 != 0), unsafe=False)
+        src, rn = gen_program(rng, profile.gen, small=(k % 4 != 0), d9=(k % 2 == 0))
         inputs = gen_inputs(rng, 3)
         tried += 1
         hit = _fails(src, rn, inputs, profile)
@@ -2831,7 +2920,7 @@ def search(ctx, why, profile=Profile):
         except Exception:  # noqa: BLE001  (never lose a found failure to a shrinker problem)
             s2, rn2, in2 = src, rn, inputs
         res = eval_real(s2, rn2, in2, profile)
-        if report_oracle(ctx, res, "safe", profile) or res["facts"]:
+        if report_oracle(ctx, res, profile) or res["facts"]:
             found += 1
         if found >= 3:
             break
@@ -2871,15 +2960,16 @@ class _FakeCtx:
 
 
 def run_real_only(n=400, seed=0, profile=Profile, verbose=False):
-    """generate n programs, run the real side and the oracle only (hoist-safety from the Python predicate)"""
+    """generate n programs, run the real side and the oracle only"""
     ctx = _FakeCtx(seed)
-    out = {"programs": 0, "disagree": {"safe": [], "chain": [], "sibling": []}, "status": {}, "facts": []}
+    out = {"programs": 0, "disagree": [], "d9_shaped": 0, "status": {}, "facts": []}
     t0 = time.time()
     cases = load_corpus(profile) + [("gen", *gen_program(ctx.rng, profile.gen), None) for _ in range(n)]
     for name, src, rn, inputs in cases:
         inputs = inputs or gen_inputs(ctx.rng)
-        res = eval_real(src, rn, inputs, profile)
+        res = eval_real(src, rn, inputs, profile, model=not name.startswith("corpus-oracle-only:"))
         out["programs"] += 1
+        out["d9_shaped"] += bool(res["d9"])
         out["status"][res["status"]] = out["status"].get(res["status"], 0) + 1
         kind = shape_tag(res["feat"], res["unreachable"]) if res["status"] == "ok" else res["status"]
         for run in res["runs"] or [None]:
@@ -2888,7 +2978,7 @@ def run_real_only(n=400, seed=0, profile=Profile, verbose=False):
             out["facts"].append((src, res["facts"]))
         for run in res["runs"]:
             if run["agree"] is False:
-                out["disagree"][res["pyhs"]].append((src, run["args"], run["py"].show(), run["cfg"].show()))
+                out["disagree"].append((src, run["args"], run["py"].show(), run["cfg"].show(), res["d9"]))
                 break
     out["dist"], out["evaluations"], out["nontrivial"] = ctx.dist, ctx.evaluations, len(ctx.nontrivial)
     out["wall_s"] = round(time.time() - t0, 2)
